@@ -448,7 +448,7 @@ func buildProbes() []probe {
 			src: fmt.Sprintf("pri func s.%s(x: base.bool) base.bool {\n    return not args.x\n}\n", nm)})
 	}
 	// associative
-	for _, as := range [][3]string{{"+", "A+", "[..= 50]"}, {"*", "A*", "[..= 5]"}, {"&", "A&", ""}, {"|", "A|", ""}, {"^", "A^", ""}} {
+	for _, as := range [][3]string{{"+", "A+", "[..= 50]"}, {"*", "A*", "[..= 3]"}, {"&", "A&", ""}, {"|", "A|", ""}, {"^", "A^", ""}} {
 		for _, ty := range probeTypes {
 			for _, cnt := range []int{3, 4} {
 				T := "base." + ty + as[2]
